@@ -233,9 +233,17 @@ func randomHistory(rng *rand.Rand, nBlocks, maxAdds int) racHistory {
 type mapCfg struct {
 	Full      bool
 	TotalRows uint8
+	// NoRemember: a light forest that is never told to remember added leaves; every deletion is first
+	// verified with remember (which ingests the block proof), then applied.
+	NoRemember bool
 }
 
-func (c mapCfg) String() string { return fmt.Sprintf("map(full=%v,rows=%d)", c.Full, c.TotalRows) }
+func (c mapCfg) String() string {
+	if c.NoRemember {
+		return fmt.Sprintf("map(full=%v,rows=%d,remembers-nothing)", c.Full, c.TotalRows)
+	}
+	return fmt.Sprintf("map(full=%v,rows=%d)", c.Full, c.TotalRows)
+}
 
 type racWorld struct {
 	spec  *specForest
